@@ -19,7 +19,7 @@ var hostileStatus = []string{
 }
 var hostileCT = []string{
 	"Content-Type: \x1b[2Jtext/html", "Content-Type: \x9b31mapplication/json", "Content-Type: te\x1b]0;x\x07xt", "Content-Type: \u009bfoo/bar", "Content-Type: \x07",
-	"Content-Type: text/\x1b[1;1Hhtml",
+	"Content-Type: text/\x1b[1;1Hhtml", "Content-Type: text/html; charset=\x1b[2J\x1b]0;t\x07", "Content-Type: text/html;\u009b6n",
 }
 
 func scenC01Pub(r *Run) {
@@ -38,7 +38,16 @@ func scenC01Pub(r *Run) {
 	for i := 0; i < nb; i++ {
 		u := fmt.Sprintf("https://h1.example/bad/%d", i)
 		body := `{"id":"` + u + `","type":"Note","name":"x"}`
-		switch t.Draw(5) {
+		switch t.Draw(6) {
+		case 5:
+			// an actor document that names, as its own identity, a host whose escaped spelling
+			// decodes to control characters (C1 controls survive URL parsing of a host): a relative,
+			// a parent or a look-alike of the host that really serves it. Actors are shown as
+			// @name@host.
+			esc := []string{"%C2%9B2J", "%C2%9B31m", "%C2%85", "%C2%9B5n", "%C2%90"}[t.Draw(5)]
+			idHost := []string{esc + ".h1.example", esc + "h1.example", "h1.example." + esc, "a." + esc + ".h1.example", "h1" + esc + ".example", esc}[t.Draw(6)]
+			f.Serve(u, Doc{"id": "https://" + idHost + fmt.Sprintf("/bad/%d", i), "type": "Person", "preferredUsername": "bob", "name": "Bob", "summary": "<p>hi</p>"})
+			r.S.Probe("c01_impostor_identity_host")
 		case 0:
 			f.ServeRaw(u, HTTPResponse(hostileStatus[t.Draw(len(hostileStatus))], []string{"Content-Type: application/activity+json"}, body, "\r\n"))
 		case 1:
